@@ -2302,7 +2302,7 @@ class Side:
                 buffer.write(f'{ind}\t\tmultiblend_color_{i}\n{ind}\t\t{{\n')
                 for y in range(size):
                     row = [
-                        str(vert.multi_colors[i]) if vert.multi_colors is not None else '1'
+                        str(vert.multi_colors[i]) if vert.multi_colors is not None else '1 1 1'
                         for vert in self._disp_verts[size * y:size * (y+1)]
                     ]
                     buffer.write(f'{ind}\t\t"row{y}" "{" ".join(row)}"\n')
